@@ -1,6 +1,6 @@
 #!/bin/bash
 # usage: tools/run_all.sh [quick|thorough]  — runs all 20 checks in parallel (shared fact cache is lock-protected); prints one line per check
-cd /verif
+cd "$(dirname "$0")/.."
 T=${1:-quick}
 ./check C18 --tier $T >/dev/null 2>&1   # warm the fact cache once
 printf "%s\n" C01 C02 C03 C04 C05 C06 C07 C08 C09 C10 C11 C12 C13 C14 C15 C16 C17 C18 C19 C20 | \
